@@ -27,9 +27,17 @@ from cascade.low.core import DatasetId, JobInstance, Task2TaskEdge, TaskDefiniti
 _FUNC_CACHE: dict = {}
 
 
-def make_fn(j: int, nout: int):
+FALSY = {"on": False}  # when on, task 0 (if single-output) produces the falsy value 0
+
+
+def make_fn(j: int, nout: int, falsy: bool = False):
     """Uninterpreted task bodies: equal result terms <=> equal values under every interpretation."""
-    if nout == 1:
+    if nout == 1 and falsy:
+
+        def f(*args, **kwargs):
+            return 0
+
+    elif nout == 1:
 
         def f(*args, **kwargs):
             return (f"t{j}", args, tuple(sorted(kwargs.items())))
@@ -44,9 +52,10 @@ def make_fn(j: int, nout: int):
 
 
 def func_enc(j, nout):
-    k = (j, nout)
+    falsy = FALSY["on"] and j == 0 and nout == 1
+    k = (j, nout, falsy)
     if k not in _FUNC_CACHE:
-        _FUNC_CACHE[k] = TaskDefinition.func_enc(make_fn(j, nout))
+        _FUNC_CACHE[k] = TaskDefinition.func_enc(make_fn(j, nout, falsy))
     return _FUNC_CACHE[k]
 
 
@@ -129,7 +138,7 @@ def sequential(spec) -> dict:
         args = tuple(args)
         kws = tuple(sorted(kwargs.items()))
         if t["nout"] == 1:
-            val[(j, "0")] = (f"t{j}", args, kws)
+            val[(j, "0")] = 0 if (FALSY["on"] and j == 0) else (f"t{j}", args, kws)
         else:
             for oi, o in enumerate(out_names(t["nout"])):
                 val[(j, o)] = (f"t{j}", oi, args, kws)
@@ -159,6 +168,7 @@ def run_controller(ch, params, monitors, fail_point=False):
     gpu_possible = any(g for h in hosts for g in h)
     fixed = {tuple(map(int, k.split("-"))): v for k, v in params.get("fixed", {}).items()}
     with ch.untraced():
+        FALSY["on"] = bool(params.get("falsy"))
         job, spec = build_job(ch, n, multi, gpu_possible, fixed, with_ext=not params.get("family"), ext_sinks=bool(params.get("family")))
         sim = sim_cluster.SimCluster(job, hosts, ch, K, monitors, ch.untraced)
         if fail_point:
@@ -205,7 +215,7 @@ def family_shards(tier):
             for j in range(i + 1, n):
                 # task index = comp * L + position ; edge between consecutive positions of the same chain
                 fixed[f"{i}-{j}"] = 1 if (i // L == j // L and j == i + 1) else 0
-        for hosts in (["1x1", "2x1", "3x1"] if tier == "quick" else ["1x1", "2x1", "3x1", "1x2", "2x2"]):
+        for hosts in (["1x1", "2x1", "3x1", "1x2"] if tier == "quick" else ["1x1", "2x1", "3x1", "1x2", "2x2"]):
             out.append({"n": n, "multi": [0] * n, "hosts": hosts, "K": 3 if tier == "quick" else 5, "fixed": fixed, "family": f"{c} chains of {L}"})
     return out
 
@@ -232,6 +242,8 @@ class Ctrl(Harness):
                     for multi in itertools.product([0, 1], repeat=n):
                         K = 4 if not (n == 2 and (any(multi) or hosts == "2x1g")) else (3 if hosts != "2x1g" else 2)
                         out.append({"n": n, "multi": list(multi), "hosts": hosts, "K": K})
+            for n in (1, 2):
+                out.append({"n": n, "multi": [0] * n, "hosts": "2x1", "K": 3, "falsy": True})  # a requested output whose value is falsy
             for hosts, multi, K in [("2x1", [0, 0, 0], 4), ("1x2", [0, 0, 0], 3), ("2x2", [0, 0, 0], 3), ("2x1g", [0, 0, 0], 2), ("1x1g", [0, 0, 0], 1), ("1x1", [0, 0, 0], 2),
                                     ("2x1", [1, 0, 0], 3)]:
                 for f01 in range(len(pair_options(2 if multi[0] else 1))):
@@ -366,3 +378,64 @@ class ActStep(Harness):
 
 
 register(ActStep())
+
+
+class PlanStep(Harness):
+    """One call of scheduler.api.plan: a local no-op preparation (the dataset is already available on the host, held by a
+    sibling worker) must not make the host look as if it no longer had the dataset."""
+
+    name = "plan-step"
+    engine = "E1-crosshair"
+    properties = ("C03", "C04")
+    rule = "one path = (cluster shape, where the dataset is available, which worker gets the consumer and with which preparation entry); non-trivial = the target host already holds the dataset"
+    assumptions = ["state built by the real initialize() for a producer with two consumers, then the producer's output marked available as notify would"]
+    outside = []
+
+    def shards(self, tier):
+        return [{"hosts": h} for h in ("1x2", "2x2", "2x1")]
+
+    def budget(self, tier):
+        return 60.0
+
+    def bounds(self, tier):
+        return {"hosts": ["1x2", "2x2", "2x1"], "tasks": "producer + 2 consumers"}
+
+    def functions(self):
+        return [s_api.plan, s_api._set_preparing_at]
+
+    def body(self, ch, params):
+        from cascade.scheduler.core import Assignment, DatasetStatus
+
+        with ch.untraced():
+            FALSY["on"] = False
+            fixed = {(0, 1): 1, (0, 2): 1, (1, 2): 0}
+            job, spec = build_job(ch, 3, [0, 0, 0], False, fixed, with_ext=False)
+            sim = sim_cluster.SimCluster(job, HOST_SHAPES[params["hosts"]], ch, 0, set(), ch.untraced)
+            state = s_api.initialize(sim.env, s_graph.precompute(job), set())
+            ds = DatasetId("t0", "0")
+            workers = sorted(sim.workers, key=repr)
+            holder = ch.choose(workers, "holder")
+            # what notify() records when the producer's output is published by `holder`
+            state.host2ds[holder.host][ds] = DatasetStatus.available
+            state.ds2host[ds][holder.host] = DatasetStatus.available
+            state.worker2ds[holder][ds] = DatasetStatus.available
+            state.ds2worker[ds][holder] = DatasetStatus.available
+            target = ch.choose(workers, "target")
+            src_host = holder.host
+            a = Assignment(worker=target, tasks=["t1"], prep=[(ds, src_host)], outputs={DatasetId("t1", "0")})
+            for w in workers:
+                state.host2component[w.host] = 0
+                state.components[0].worker2task_distance.setdefault(w, __import__("collections").defaultdict(lambda: state.components[0].core.depth))
+            try:
+                state = s_api.plan(state, [a])
+            except Exception as e:
+                raise Violation(f"plan-raised-{type(e).__name__}", str(e)[:200])
+            ch.note("case", {"hosts": params["hosts"], "holder": repr(holder), "target": repr(target)})
+            ch.note("nontrivial", target.host == holder.host)
+            if state.ds2host[ds].get(holder.host) != DatasetStatus.available:
+                raise Violation("available-dataset-downgraded-by-planning", f"{ds} at {holder.host}: {state.ds2host[ds].get(holder.host)} after planning {a.tasks} on {target}")
+            if not any(st == DatasetStatus.available for st in state.ds2host[ds].values()):
+                raise Violation("no-transfer-source-left", repr(ds))
+
+
+register(PlanStep())
